@@ -333,6 +333,15 @@ async fn history(role: Role, ch: &mut dyn Choose, rng: &mut Rng) -> Outc {
             }
         }
     }
+    // all traffic in these histories is valid: only a failing handler may end the connection
+    let ended = !stops.is_empty() || done_seq.is_some();
+    let a_handler_failed = log.iter().any(|(_, e)| matches!(e, Ev::PubExit { outcome: Outcome::Err, .. }) || (!v5 && matches!(e, Ev::PubExit { outcome: Outcome::Nack(_), .. })));
+    if ended && !a_handler_failed {
+        o.violations.push((
+            "connection ended although the peer only sent valid packets and no handler failed".into(),
+            format!("stops {stops:?}; last packets from the peer: {:?}", log.iter().rev().filter_map(|(_, e)| if let Ev::PeerSent(x) = e { Some(x.clone()) } else { None }).take(2).collect::<Vec<_>>()),
+        ));
+    }
     // handled exactly once: no more handler entries than messages
     if pub_enters.len() > msgs.len() {
         o.violations.push(("more publish-handler invocations than PUBLISH packets".into(), format!("{} invocations for {} messages", pub_enters.len(), msgs.len())));
